@@ -20,6 +20,7 @@ import (
 	"net/http/httptest"
 	"net/netip"
 	"os"
+	"path/filepath"
 	"strings"
 	"testing"
 	"testing/fstest"
@@ -53,8 +54,10 @@ func vfFreePort(t *testing.T, network string) (port uint16) {
 	}
 }
 
-func TestVFC11Install(t *testing.T) {
-	vfkit.Begin(t)
+// vfFirstRun puts the process into the state of a program started for the first
+// time and returns the handler the web servers serve, the free ports for the
+// wizard and the working directory.
+func vfFirstRun(t *testing.T) (h http.Handler, webPort, dnsPort uint16, dir string) {
 	log.SetOutput(io.Discard)
 	logger := slogutil.NewDiscardLogger()
 	ctx := context.Background()
@@ -63,10 +66,8 @@ func TestVFC11Install(t *testing.T) {
 	if err != nil {
 		t.Fatalf("VERIF-INCONCLUSIVE mkdir: %v", err)
 	}
-	defer os.RemoveAll(dir)
 
 	// a DNS port that is free for both UDP and TCP
-	var dnsPort uint16
 	for i := 0; i < 50 && dnsPort == 0; i++ {
 		p := vfFreePort(t, "udp")
 		if l, lerr := net.Listen("tcp", fmt.Sprintf("127.0.0.1:%d", p)); lerr == nil {
@@ -77,7 +78,7 @@ func TestVFC11Install(t *testing.T) {
 	if dnsPort == 0 {
 		t.Fatalf("VERIF-INCONCLUSIVE no port free for udp and tcp")
 	}
-	webPort := vfFreePort(t, "tcp")
+	webPort = vfFreePort(t, "tcp")
 
 	// the state of a program started for the first time (see run() in home.go)
 	globalContext.workDir = dir
@@ -128,7 +129,16 @@ func TestVFC11Install(t *testing.T) {
 	}
 	globalContext.web = web
 	tlsMgr.setWebAPI(web)
-	h := vfHandler()
+	h = vfHandler()
+
+	return h, webPort, dnsPort, dir
+}
+
+func TestVFC11Install(t *testing.T) {
+	vfkit.Begin(t)
+	ctx := context.Background()
+	h, webPort, dnsPort, dir := vfFirstRun(t)
+	defer os.RemoveAll(dir)
 
 	do := func(method, path, body string, auth bool) (rec *httptest.ResponseRecorder) {
 		var r *http.Request
@@ -213,4 +223,74 @@ func TestVFC11Install(t *testing.T) {
 	}
 	vfC11.Class("install:administrator_in_file")
 	vfC11.Sample("install", map[string]any{"dns_port": dnsPort, "users_in_file": len(saved.Users)})
+}
+
+// TestVFC11InstallFails: the wizard call fails half-way (a damaged statistics
+// database left over in the data directory makes the start of the modules
+// fail).  Whatever state that leaves: an administrator account and open
+// wizard routes must not exist together.
+func TestVFC11InstallFails(t *testing.T) {
+	vfkit.Begin(t)
+	h, webPort, dnsPort, dir := vfFirstRun(t)
+	defer os.RemoveAll(dir)
+
+	if err := os.WriteFile(filepath.Join(globalContext.getDataDir(), "stats.db"), []byte("this is not a database\n"), 0o644); err != nil {
+		t.Fatalf("VERIF-INCONCLUSIVE planting stats.db: %v", err)
+	}
+	do := func(method, path, body string) (rec *httptest.ResponseRecorder) {
+		var r *http.Request
+		if body != "" {
+			r = httptest.NewRequest(method, "http://agh.vf.test"+path, strings.NewReader(body))
+			r.Header.Set("Content-Type", "application/json")
+		} else {
+			r = httptest.NewRequest(method, "http://agh.vf.test"+path, nil)
+		}
+		r.RemoteAddr = "192.0.2.250:1"
+		rec = httptest.NewRecorder()
+		func() {
+			defer func() {
+				if p := recover(); p != nil {
+					rec.Code = http.StatusInternalServerError
+				}
+			}()
+			h.ServeHTTP(rec, r)
+		}()
+
+		return rec
+	}
+	configure := func(user string) (code int) {
+		body, _ := json.Marshal(map[string]any{
+			"web":      map[string]any{"ip": "127.0.0.1", "port": webPort, "status": "", "can_autofix": false},
+			"dns":      map[string]any{"ip": "127.0.0.1", "port": dnsPort, "status": "", "can_autofix": false},
+			"username": user, "password": vfAdminPass,
+		})
+
+		return do(http.MethodPost, "/control/install/configure", string(body)).Code
+	}
+
+	code := configure("ghost")
+	if code == http.StatusOK {
+		t.Fatalf("VERIF-INCONCLUSIVE the installation succeeded although data/stats.db is damaged")
+	}
+	vfC11.Eval()
+	vfC11.Class(fmt.Sprintf("install:failed:%d", code))
+	vfC11.Nontrivial("install|failed")
+
+	users := globalContext.auth.usersList()
+	wizardOpen := do(http.MethodGet, "/control/install/get_addresses", "").Code == http.StatusOK
+	if len(users) > 0 && wizardOpen {
+		second := configure("mallory")
+		t.Fatalf("after a failed installation (POST /control/install/configure answered %d) the administrator account %q exists and the wizard's routes "+
+			"still run without credentials: GET /control/install/get_addresses answered 200, a second configure call answered %d and the accounts are now %v",
+			code, users[0].Name, second, vfUserNames(globalContext.auth.usersList()))
+	}
+	vfC11.Class(fmt.Sprintf("install:failed:accounts=%d:wizard_open=%t", len(users), wizardOpen))
+}
+
+func vfUserNames(us []webUser) (names []string) {
+	for _, u := range us {
+		names = append(names, u.Name)
+	}
+
+	return names
 }
